@@ -227,6 +227,7 @@ func genHistory(r *rand.Rand, tier string) Case {
 			return d
 		}
 	}
+	var asked [][2]int
 	for len(c.Msgs) < n {
 		u := uris[r.IntN(nuri)]
 		_, opened := latest[u]
@@ -261,6 +262,12 @@ func genHistory(r *rand.Rand, tier string) Case {
 				kind = "definition"
 			}
 			line, ch := pickPosition(r, latest[u])
+			if len(asked) > 0 && r.IntN(3) == 0 {
+				// the same position again, after other updates or on another document
+				p := asked[r.IntN(len(asked))]
+				line, ch = p[0], p[1]
+			}
+			asked = append(asked, [2]int{line, ch})
 			c.Msgs = append(c.Msgs, Msg{Kind: kind, URI: u, Line: line, Char: ch})
 		case 4:
 			c.Msgs = append(c.Msgs, Msg{Kind: "symbols", URI: u})
@@ -410,7 +417,7 @@ func Worker(o core.WorkerOpts) *core.Report {
 	distinct := &core.HashSet{}
 	subEvery := int64(0)
 	if o.Bin != "" {
-		subEvery = 40
+		subEvery = 25
 	}
 	setupCapture()
 	defer teardownCapture()
